@@ -384,7 +384,9 @@ def units(tier, seed):
     b = 1 if tier == "quick" else 2
     for mode, desc in lifecycle_descs(tier, seed, maximize=(False, True)):
         if mode == "bounded":
-            us += split_units(desc, b, "GLS", {"kind": "life", "tier": tier})
+            # one unit per world (not split by first deviation): the synthetic filter cases of an occupancy are
+            # enumerated once per unit
+            us.append({"kind": "lifedesc", "desc": desc, "bound": b, "tier": tier})
     descs = []
     shapes = shapes_h2()[::2] + shapes_h3_cover()[::3] if tier == "quick" else shapes_h2() + shapes_h3_cover()
     for k, eng in enumerate(shapes):
@@ -403,10 +405,12 @@ def units(tier, seed):
     from ..runlib import mechanism_descs
 
     md = [dict(d, choices="", print_at_boundaries=True, Mh=6) for d in mechanism_descs(tier, seed)]
+
     us += [{"kind": "run", "descs": c, "tier": tier, "small": True} for c in chunks(md, 6)]
     from ..runlib import reuse_sequences
 
-    for seq in reuse_sequences(tier, seed):
+    rs = reuse_sequences(tier, seed)
+    for seq in rs:
         us.append({"kind": "run", "descs": seq, "tier": tier, "small": True})
     return us
 
@@ -416,6 +420,12 @@ def run_unit(unit):
     mon = C10MonitorS if unit.get("small") else (C10Monitor if unit.get("tier", "quick") == "quick" else C10MonitorT)
     if unit["kind"] == "run":
         return run_descs(Result(), ID, unit, unit["descs"], [mon], _nontrivial)
+    if unit["kind"] == "lifedesc":
+        from ..explorer import explore
+
+        res = Result()
+        explore(res, ID, {"kind": "lifedesc", "tier": unit.get("tier")}, unit["desc"], [mon], bound=unit["bound"], kinds="GLS", nontrivial_rule=_nontrivial)
+        return res
     return run_split_unit(ID, unit, [mon], _nontrivial)
 
 
